@@ -1370,7 +1370,7 @@ def pos_texts(rng, n):
     return out
 
 
-def check_positions(ctx, failures, st):
+def pos_prepare(ctx):
     rng = ctx.rng
     import random
     rng = random.Random(ctx.seed + 17)      # own stream: runs in a thread next to the document generator
@@ -1380,6 +1380,10 @@ def check_positions(ctx, failures, st):
         nb = len(t.encode("utf-8"))
         cases.append({"op": "codemap", "text": t, "offsets": list(range(0, nb + 1))})
     rc, log, res = sv.run_harness_sharded(ctx, "lsp", cases, timeout=300)
+    return cases, res
+
+
+def pos_model(ctx, cases, res, failures, st):
     files = []
     nshard = 2 if ctx.quick() else 6
     for s in range(nshard):
@@ -1538,7 +1542,7 @@ def run_corpus(ctx, failures, st):
                 for m in ("textDocument/definition", "textDocument/hover", "textDocument/completion"):
                     steps.append({"do": "req", "method": m, "params": tdp(URI, ln, ch)})
         steps.append({"do": "close", "uri": URI})
-        cases.append({"op": "session", "files": {}, "steps": steps, "deadline_ms": 60000})
+        cases.append({"op": "session", "files": e.get("files", {}), "steps": steps, "deadline_ms": 60000})
         metas.append(e)
     if not cases:
         return
@@ -1562,7 +1566,23 @@ def run_corpus(ctx, failures, st):
                 st["requests"] += 1
             for path, rg in all_ranges(payload):
                 st["ranges"] += 1
-                if not range_ok(geo, rg):
+                g2 = geo
+                if path.endswith("targetRange") or path.endswith("targetSelectionRange"):
+                    turi = payload[int(path.split("/")[1])].get("targetUri") if isinstance(payload, list) else None
+                    if turi != URI:
+                        ttext = e.get("files", {}).get((turi or "").replace("file://", ""))
+                        if ttext is None:
+                            continue
+                        g2 = Geo(ttext)
+                if not range_ok(g2, rg):
+                    al = e.get("alias")
+                    if (al and step.get("method", "").endswith("completion") and rg["start"]["line"] == al[0]
+                            and rg["start"]["character"] == al[1] + 1 and rg["end"]["character"] == al[2] - 1):
+                        st["known_alias"] = st.get("known_alias", 0) + 1
+                        failures.append({"key": K_ALIAS, "what": "corpus %s: completion at %s on the alias of a load returns the text edit range %s"
+                                         % (e["name"], json.dumps(step["params"]["position"]), json.dumps(rg)),
+                                         "replay": {"text": e["text"], "request": step, "reply": payload, "files": e.get("files")}})
+                        continue
                     failures.append({"key": "C19/range/out-of-document/%s" % (step.get("method", step["do"]).split("/")[-1]),
                                      "what": "corpus %s: %s -> range %s is not a valid UTF-16 range" % (e["name"], json.dumps(step)[:160], json.dumps(rg)),
                                      "replay": {"text": e["text"], "request": step, "reply": payload}})
@@ -1600,7 +1620,7 @@ def correspond(ctx):
     run_corpus(ctx, failures, st)
     ctx.log("corpus: %d steps, %d failures so far" % (st["steps"], len(failures)))
     import threading
-    ndocs = ctx.n(70, 1500)
+    ndocs = ctx.n(48, 1500)
     docs = gen_docs(ctx, ndocs)
     feat = {}
     for d in docs:
@@ -1611,7 +1631,8 @@ def correspond(ctx):
     box = {}
     pos_fail, pos_st = [], {"positions": 0, "range_conversion_scalar": 0}
     th1 = threading.Thread(target=lambda: box.__setitem__("model", run_bind_model(ctx, docs)))
-    th2 = threading.Thread(target=lambda: check_positions(ctx, pos_fail, pos_st))
+    pcases, pres = pos_prepare(ctx)
+    th2 = threading.Thread(target=lambda: pos_model(ctx, pcases, pres, pos_fail, pos_st))
     th1.start()
     th2.start()
     tagobs, est = run_tagged(ctx, docs)
@@ -1700,18 +1721,21 @@ def replay(ctx, rep):
 
 META = {
     "category": "proof",
-    "level_text": "Proof + tie, with two known findings. Coq (Properties/C19.v, closed under the global context): (a) positions - the model of "
-                  "CodeMap's line table, binary-search find_line and scalar-counting find_line_col equals the one-pass specification for every "
-                  "byte offset (CRLF, last line without newline, offsets inside a multi-byte character or past the end included), line/column "
-                  "round-trips on character boundaries, every produced position is a position of the document, and the produced column equals the "
-                  "protocol's UTF-16 column IF AND ONLY IF no astral character precedes on the line (refuted in general: witness U+1F600); (b) name "
-                  "resolution - for the whole modelled fragment (module/def/lambda/comprehension scopes, parameter defaults, first iterable outside, "
-                  "augmented assignment, tuple targets, load, every shadowing pattern) the server's bind/definition algorithm returns a binding "
-                  "occurrence of the same name that belongs to exactly the scope the declarative run-time rule reads, and returns nothing only for "
-                  "builtins/non-uses. Tie on every run: the real server over in-memory JSON-RPC on generated documents x every identifier occurrence "
-                  "x other positions x open/change(broken)/change/close histories: reply under a deadline, every range valid in UTF-16, definition "
-                  "target = Coq model, and = the scope observed by scope-tagged evaluation on the real evaluator; CodeMap vs model on every byte "
-                  "offset of generated texts; error spans vs the planted failing expression.",
+    "level_text": "Proof + tie, with three known findings. Coq (Properties/C19.v, 13 statements, closed under the global context): (a) positions - "
+                  "in the model of CodeMap (line table from \\n, slice::binary_search, clamp_pos, byte slicing, scalar counting) find_line returns, for "
+                  "EVERY byte offset (CRLF, last line without newline, inside a multi-byte character, past the end), the one line of the table whose "
+                  "span contains the offset; for offsets on character boundaries the text counted by find_line_col is exactly the segment between that "
+                  "line's start and the offset, offset_of(find_line_col off) = off, and the produced position lies in the document; the produced column "
+                  "equals the protocol's UTF-16 column IF AND ONLY IF no astral character is in that segment, is never larger, and is refuted in general "
+                  "(witness: U+1F600 before an identifier). (b) name resolution - for the whole modelled fragment (module/def/lambda/comprehension "
+                  "scopes, parameter defaults and first iterable outside, names assigned later in a body, augmented assignment, tuple targets, load: "
+                  "every shadowing pattern) bind.rs + find_definition_in_scope return a binding occurrence of the same name that belongs to exactly the "
+                  "scope the declarative run-time rule reads, and return nothing only for builtins/non-uses. Not proved (tested by the tie on every "
+                  "run): round trip for offsets strictly inside a multi-byte character (floor_char_boundary), validity of positions in UTF-16 units. "
+                  "Tie on every run: the real server over in-memory JSON-RPC on generated documents x every identifier occurrence x other positions x "
+                  "open/change(broken)/change/close histories: reply under a deadline, every range valid in UTF-16, definition target = Coq model and = "
+                  "the scope observed by scope-tagged evaluation on the real evaluator; CodeMap vs the model on every byte offset of generated texts; "
+                  "error spans vs the planted failing expression.",
     "level_note": "Trusted: Coq kernel; harness bins lsp/eval; the generator/validator in tools/props/C19.py; the scoping view of MiniStar in Lsp/Bind.v "
                   "(operators collapsed; dotted access = its root; type annotations not modelled). The Rust bind.rs/definition.rs/codemap.rs are tied to the "
                   "models by differential testing, not proof. Completion/hover contents are checked for well-formed ranges only. Known findings: columns "
